@@ -322,6 +322,31 @@ def r52(ctx: Ctx) -> RuleReport:
                         rep.violation('penman.tree:Tree.reset_variables: every node variable not yet mapped receives a new name', fi.loc(nd.ast),
                                       'an unmapped variable can pass without being given a name: ' + ' -> '.join(repr(cfg.nodes[p]) for p in skip[-4:]))
                         return rep
+    if not good and loop is not None and isinstance(loop.target, ast.Tuple):
+        # the skip test is made against another set: whose names does that set hold?
+        v = norm(loop.target.elts[0])
+        st = [n for n in ast.walk(loop) if isinstance(n, ast.Assign) and norm(n.targets[0]) == f'{vm}[{v}]']
+        for nd in cfg.nodes:
+            if not (st and nd.kind == 'cond' and isinstance(nd.ast, ast.Compare) and len(nd.ast.ops) == 1 and isinstance(nd.ast.ops[0], (ast.In, ast.NotIn))
+                    and norm(nd.ast.left) == v and isinstance(nd.ast.comparators[0], ast.Name)):
+                continue
+            S = nd.ast.comparators[0].id
+            if S == vm:
+                continue
+            edge = 'T' if isinstance(nd.ast.ops[0], ast.In) else 'F'
+            sn, head = cfg.node_of(st[0]), cfg.node_of(loop)
+            skip = cfg.path_avoiding([(nd.id, edge)], {head, cfg.exit}, lambda x: x.id == sn)
+            if not skip:
+                continue
+            adds = [c.args[0] for c in walk_local(fi.node) if isinstance(c, ast.Call) and isinstance(c.func, ast.Attribute) and c.func.attr == 'add'
+                    and norm(c.func.value) == S and c.args]
+            newname = norm(st[0].value)
+            if adds and all(norm(a_) == newname for a_ in adds):
+                rep.violation('penman.tree:Tree.reset_variables: every node variable not yet mapped receives a new name', fi.loc(nd.ast),
+                              f'`{norm(nd.ast)}` skips a node, but `{S}` only ever receives the NEW names (`{S}.add({newname})`) while `{v}` is an OLD variable of the tree: '
+                              f'a node whose present variable equals a name already handed out - (b / alpha :ARG0 (a / beta)) with "{{prefix}}{{j}}" - gets no entry in '
+                              f'`{vm}`, and the rewrite then fails with KeyError or leaves it with a name that is now taken')
+                return rep
     rep.add('penman.tree:Tree.reset_variables: every node variable not yet mapped receives a new name', fi.loc(), 'ok' if good else 'undecided')
     return rep
 
@@ -1311,8 +1336,18 @@ def r75(ctx: Ctx) -> RuleReport:
                     for m in fi.cls.methods.values():
                         reads += [(m, x) for x in walk_local(m.node) if isinstance(x, ast.Subscript) and isinstance(x.ctx, ast.Load)
                                   and norm(x.value) == f'self.{attr}']
-                    if reads:
-                        m, x = reads[0]
+                    # a read under `key in self.attr` (or after `key not in self.attr: raise`) cannot insert
+                    unguarded = []
+                    for m, x in reads:
+                        k = norm(x.slice).replace(' ', '')
+                        fx = {(f.replace(' ', ''), pol) for f, pol in facts_ex(ctx, m, x)}
+                        if (f'{k}inself.{attr}', True) in fx or (f'{k}notinself.{attr}', False) in fx:
+                            continue
+                        unguarded.append((m, x))
+                    if reads and not unguarded:
+                        rep.ok(key, fi.loc(n), f'self.{attr} stays a defaultdict, but each of the {len(reads)} subscript read(s) is under a membership test on the same key')
+                    elif unguarded:
+                        m, x = unguarded[0]
                         rep.violation(key, fi.loc(n), f'self.{attr} stays a defaultdict, and {m.qualname} reads it with `{norm(x)[:40]}`: looking up a key that is '
                                       f'not there inserts an empty entry, so a failed query changes the object (is_role_reifiable flips, two equal '
                                       f'models stop being equal)')
@@ -2228,6 +2263,10 @@ def r89(ctx: Ctx) -> RuleReport:
             okg, vg = try_fold(dv, {}, ctx.repo, fi.module)
             same = (okw and okg and vw == vg and type(vw) is type(vg)) or norm(dv) == dsrc
             if not same and okw and okg:
+                if _default_only_compared(ctx, fi, n):
+                    rep.add(f'{fq}: default of `{n}`', fi.loc(), 'info', f'default of `{n}` is {norm(dv)}, documented {dsrc}; the value is stored on the object and '
+                            f'only ever read by __eq__/__repr__/__hash__, so no result of a call depends on it')
+                    continue
                 problems.append(f'default of `{n}` is {norm(dv)}, documented {dsrc}')
             elif not same:
                 problems.append(None)
@@ -2242,6 +2281,43 @@ def r89(ctx: Ctx) -> RuleReport:
         else:
             rep.ok(key, fi.loc())
     return rep
+
+
+def _default_only_compared(ctx, fi, param: str) -> bool:
+    """The constructor parameter is stored unchanged in exactly one attribute, and that attribute is read nowhere in the package except in
+    __eq__ / __ne__ / __repr__ / __str__ / __hash__ of the class (closed world: any `.attr` load anywhere else counts as a use)."""
+    if fi.cls is None or fi.name != '__init__':
+        return False
+    stores = [n for n in walk_local(fi.node) if isinstance(n, ast.Assign) and isinstance(n.value, ast.Name) and n.value.id == param]
+    uses = [n for n in walk_local(fi.node) if isinstance(n, ast.Name) and n.id == param and isinstance(n.ctx, ast.Load)]
+    if len(stores) != 1 or len(uses) != 1:
+        return False
+    t = stores[0].targets[0]
+    if not (len(stores[0].targets) == 1 and isinstance(t, ast.Attribute) and norm(t.value) == 'self'):
+        return False
+    attr = t.attr
+    for f in ctx.repo.all_functions():
+        for n in walk_local(f.node):
+            if isinstance(n, ast.Attribute) and n.attr == attr and isinstance(n.ctx, ast.Load):
+                if f.cls is fi.cls and f.name in ('__eq__', '__ne__', '__repr__', '__str__', '__hash__'):
+                    continue
+                return False
+            if isinstance(n, ast.Call) and norm(n.func) == 'vars' or isinstance(n, ast.Attribute) and n.attr == '__dict__':
+                return False
+            if isinstance(n, ast.Call) and norm(n.func) == 'getattr' and len(n.args) >= 2 \
+                    and not isinstance(n.args[1], (ast.Name, ast.Constant, ast.Subscript)):
+                return False                            # a computed attribute name
+    # getattr(obj, name) with a name taken from a table: the attribute's name would have to be a string constant somewhere
+    for m in ctx.repo.modules.values():
+        if any(isinstance(n, ast.Constant) and n.value == attr for n in ast.walk(m.tree)):
+            return False
+    for m in ctx.repo.modules.values():
+        for n in ast.walk(m.tree):
+            if isinstance(n, ast.Attribute) and n.attr == attr and isinstance(n.ctx, ast.Load):
+                # module-level code outside any function
+                if not any(getattr(f.node, 'lineno', -1) <= n.lineno <= getattr(f.node, 'end_lineno', -1) for f in m.all_funcs):
+                    return False
+    return True
 
 
 # ---------------------------------------------------------------------------------------------
@@ -2742,4 +2818,357 @@ def r107(ctx: Ctx) -> RuleReport:
         want = bn.mk_or([bn.mk_and([fa, bn.mk_not(fb)]), bn.mk_and([bn.mk_not(fa), fb])])
         wit = bn.equivalent(f_got, want)
         rep.add(key, fi.loc(par), 'ok' if wit is None else 'violation', '' if wit is None else f'the condition differs from (starts with a quote) xor (ends with a quote) for {wit}')
+    return rep
+
+
+# ---------------------------------------------------------------------------------------------
+@rule('R109', 'every name a function reads is bound somewhere: as a local, in an enclosing function, at module level, or as a builtin (no path ends in NameError)')
+def r109(ctx: Ctx) -> RuleReport:
+    import builtins as _b
+    import symtable as _st
+    rep = RuleReport('R109', r109.title, floor=100)
+    allowed = set(dir(_b)) | {'__name__', '__file__', '__doc__', '__package__', '__spec__', '__loader__', '__builtins__', '__path__', '__class__',
+                              '__qualname__', '__module__', '__annotations__', '__debug__', '__dict__'}
+    n = 0
+    for m in ctx.repo.modules.values():
+        src_tree = ast.parse(m.source)
+        if any(isinstance(x, ast.ImportFrom) and any(a.name == '*' for a in x.names) for x in ast.walk(src_tree)):
+            rep.undecided(f'{m.name}: names', m.relpath, '`from ... import *`: the module-level names are not known without running the import')
+            continue
+        top = _st.symtable(m.source, m.relpath, 'exec')
+        mod_names = {sy.get_name() for sy in top.get_symbols() if sy.is_assigned() or sy.is_imported() or sy.is_namespace()}
+        # `global x` inside a function followed by an assignment also creates the module-level name
+        stack = list(top.get_children())
+        tables = []
+        while stack:
+            t = stack.pop()
+            tables.append(t)
+            stack.extend(t.get_children())
+        for t in tables:
+            for sy in t.get_symbols():
+                if sy.is_declared_global() and sy.is_assigned():
+                    mod_names.add(sy.get_name())
+        by_line = {}
+        for x in ast.walk(src_tree):
+            if isinstance(x, ast.Name) and isinstance(x.ctx, ast.Load):
+                by_line.setdefault(x.id, []).append(x.lineno)
+        for t in [top] + tables:
+            bad_before = len(rep.violations())
+            reads_here = 0
+            for sy in t.get_symbols():
+                nm = sy.get_name()
+                if not sy.is_referenced():
+                    continue
+                n += 1
+                reads_here += 1
+                if t is top:
+                    bound = nm in mod_names
+                elif sy.is_declared_global() or not (sy.is_local() or sy.is_free()):
+                    # (Symbol.is_global() is wrong for scopes that happen to be called "top" in CPython 3.12: derive it instead)
+                    bound = nm in mod_names
+                else:
+                    continue                    # local, cell or free: the compiler found the binding scope (R81 checks the order)
+                if bound or nm in allowed:
+                    continue
+                # annotations under `from __future__ import annotations` or string annotations are never evaluated: only flag names that
+                # occur as a loaded ast.Name outside annotations
+                lines = [ln for ln in by_line.get(nm, []) if t is top or (t.get_lineno() <= ln)]
+                if not lines:
+                    continue
+                where = f'{t.get_type()} {t.get_name()}' if t is not top else 'module level'
+                rep.violation(f'{m.name}: `{nm}` read in {where}', f'{m.relpath}:{lines[0]}',
+                              f'`{nm}` is read in {where} but nothing binds it: not a local or parameter, not a name of an enclosing function, not defined or '
+                              f'imported at module level, not a builtin; evaluating it raises NameError in place of the documented result')
+            if len(rep.violations()) == bad_before and t.get_type() != 'class':
+                rep.ok(f'{m.name}: {t.get_type()} {t.get_name()} (line {t.get_lineno()})', f'{m.relpath}:{t.get_lineno()}', f'{reads_here} names read, all bound')
+    rep.analysed['names_read'] = n
+    return rep
+
+
+# ---------------------------------------------------------------------------------------------
+@rule('R111', 'the character set given to strip/rstrip/lstrip holds the characters meant: no raw-string escape turns "\\n" into a backslash and a letter')
+def r111(ctx: Ctx) -> RuleReport:
+    rep = RuleReport('R111', r111.title, floor=3)
+    for fi in ctx.repo.all_functions():
+        for n in walk_local(fi.node):
+            if not (isinstance(n, ast.Call) and isinstance(n.func, ast.Attribute) and n.func.attr in ('strip', 'rstrip', 'lstrip')):
+                continue
+            key = f'{fi.module.name}:{fi.qualname}: `{norm(n)[:50]}`'
+            if not n.args:
+                rep.ok(key, fi.loc(n), 'whitespace')
+                continue
+            oks, cs = fold_in_any(ctx, fi, n.args[0])
+            if not oks or not isinstance(cs, str):
+                rep.add(key, fi.loc(n), 'info', 'character set is not a constant')
+                continue
+            esc = [cs[i + 1] for i in range(len(cs) - 1) if cs[i] == '\\' and cs[i + 1] in 'nrtfv0abx']
+            if esc:
+                letters = sorted(set(esc))
+                rep.violation(key, fi.loc(n), f'the set is {cs!r}: a backslash and the letter(s) {letters}, not the control characters the escape(s) stand for - '
+                              f'line terminators stay on the text, while a trailing/leading {letters[0]!r} or backslash of the content is eaten')
+            else:
+                rep.ok(key, fi.loc(n), f'set {cs!r}')
+    return rep
+
+
+# ---------------------------------------------------------------------------------------------
+@rule('R112', 'a walk over a tree node visits every branch: a loop over a slice of the branch list is justified by a test of what the slice leaves out')
+def r112(ctx: Ctx) -> RuleReport:
+    rep = RuleReport('R112', r112.title, floor=4)
+    for modname in ('penman.tree', 'penman.layout', 'penman._format', 'penman.transform'):
+        m = ctx.repo.module(modname)
+        for fi in m.all_funcs:
+            # names bound to the branch list of a node: `var, X = node` / `X = node[1]`
+            bnames = set()
+            for n in walk_local(fi.node):
+                if isinstance(n, ast.Assign) and isinstance(n.targets[0], ast.Tuple) and len(n.targets[0].elts) == 2 \
+                        and isinstance(n.targets[0].elts[1], ast.Name) and isinstance(n.value, (ast.Name, ast.Attribute)) \
+                        and (norm(n.value).endswith('node') or norm(n.value) in fi.params):
+                    bnames.add(n.targets[0].elts[1].id)
+                if isinstance(n, ast.Assign) and isinstance(n.targets[0], ast.Name) and isinstance(n.value, ast.Subscript) \
+                        and try_fold(n.value.slice) == (True, 1) and norm(n.value.value).endswith('node'):
+                    bnames.add(n.targets[0].id)
+            if not bnames:
+                continue
+            loops = [n for n in walk_local(fi.node) if isinstance(n, (ast.For, ast.comprehension))]
+            for lp in loops:
+                it = lp.iter
+                # enumerate(X[...]) / reversed(X[...]) wrap the same sequence
+                while isinstance(it, ast.Call) and norm(it.func) in ('enumerate', 'reversed', 'list', 'tuple', 'iter') and it.args:
+                    it = it.args[0]
+                if isinstance(it, ast.Name) and it.id in bnames:
+                    rep.ok(f'{fi.fq}: loop over `{it.id}`', fi.loc(it), 'the whole branch list')
+                    continue
+                if not (isinstance(it, ast.Subscript) and isinstance(it.slice, ast.Slice) and isinstance(it.value, ast.Name) and it.value.id in bnames):
+                    continue
+                X = it.value.id
+                sl = it.slice
+                if sl.lower is None and sl.upper is None and sl.step is None:
+                    rep.ok(f'{fi.fq}: loop over `{norm(it)}`', fi.loc(it), 'a copy of the whole list')
+                    continue
+                key = f'{fi.fq}: loop over `{norm(it)}` leaves out branches only where the code knows what they are'
+                fx = facts_ex(ctx, fi, it)
+                guard = [f for f, pol in fx if X in f and ('[0][0]' in f.replace(' ', '') or "'/'" in f or '"/"' in f)]
+                elsewhere = [x for x in walk_local(fi.node) if isinstance(x, ast.Subscript) and isinstance(x.value, ast.Name) and x.value.id == X
+                             and x is not it and not (isinstance(x.slice, ast.Slice) and norm(x) == norm(it))]
+                if guard:
+                    rep.ok(key, fi.loc(it), f'under {guard[:2]}')
+                elif elsewhere:
+                    rep.undecided(key, fi.loc(it), f'`{norm(elsewhere[0])}` is read elsewhere: the branches outside the slice may be handled there')
+                else:
+                    rep.violation(key, fi.loc(it), f'the loop runs over `{norm(it)}` with no test of what the slice leaves out, and no other code of {fi.qualname} looks at '
+                                  f'those branches: for a node whose skipped branch is an ordinary edge (a node without concept, or with the concept '
+                                  f'not written first) everything nested under it is never visited')
+    return rep
+
+
+# ---------------------------------------------------------------------------------------------
+@rule('R116', 'a position found in a filtered copy of a sequence is not used as a position in the sequence itself')
+def r116(ctx: Ctx) -> RuleReport:
+    rep = RuleReport('R116', r116.title, floor=3)
+    for fi in ctx.repo.all_functions():
+        las = ctx.cg.local_assigns(fi)
+        # A = [x for x in B if cond]  /  A = list(filter(f, B))  -> A is a filtered copy of B
+        filtered = {}
+        for nm, vals in las.items():
+            vs = [v for v in vals if isinstance(v, ast.AST)]
+            if len(vals) != 1 or len(vs) != 1:
+                continue
+            v = vs[0]
+            if isinstance(v, ast.ListComp) and len(v.generators) == 1 and v.generators[0].ifs and isinstance(v.generators[0].iter, ast.Name):
+                filtered[nm] = (v.generators[0].iter.id, v)
+            elif isinstance(v, ast.Call) and norm(v.func) in ('list', 'tuple') and v.args and isinstance(v.args[0], ast.Call) \
+                    and norm(v.args[0].func) == 'filter' and len(v.args[0].args) == 2 and isinstance(v.args[0].args[1], ast.Name):
+                filtered[nm] = (v.args[0].args[1].id, v)
+        for lp in walk_local(fi.node):
+            if not isinstance(lp, ast.For):
+                continue
+            it, idx, seq = lp.iter, None, None
+            if isinstance(it, ast.Call) and norm(it.func) == 'range' and isinstance(lp.target, ast.Name):
+                lens = [x for a in it.args for x in ast.walk(a) if isinstance(x, ast.Call) and norm(x.func) == 'len' and x.args and isinstance(x.args[0], ast.Name)]
+                if len(lens) == 1:
+                    idx, seq = lp.target.id, lens[0].args[0].id
+            elif isinstance(it, ast.Call) and norm(it.func) == 'enumerate' and it.args and isinstance(it.args[0], ast.Name) \
+                    and isinstance(lp.target, ast.Tuple) and lp.target.elts and isinstance(lp.target.elts[0], ast.Name):
+                idx, seq = lp.target.elts[0].id, it.args[0].id
+            elif isinstance(it, ast.Call) and norm(it.func) == 'reversed' and it.args and isinstance(it.args[0], ast.Call) \
+                    and norm(it.args[0].func) in ('list', 'enumerate'):
+                inner = it.args[0]
+                while isinstance(inner, ast.Call) and norm(inner.func) == 'list' and inner.args:
+                    inner = inner.args[0]
+                if isinstance(inner, ast.Call) and norm(inner.func) == 'enumerate' and inner.args and isinstance(inner.args[0], ast.Name) \
+                        and isinstance(lp.target, ast.Tuple) and isinstance(lp.target.elts[0], ast.Name):
+                    idx, seq = lp.target.elts[0].id, inner.args[0].id
+            if idx is None:
+                continue
+            key = f'{fi.module.name}:{fi.qualname}: index `{idx}` over `{seq}`'
+            if seq not in filtered:
+                rep.ok(key, fi.loc(lp), 'positions of the sequence itself')
+                continue
+            base, comp = filtered[seq]
+            # uses of the index (inside or after the loop) as a position in the unfiltered sequence
+            # names computed from the index by arithmetic (pivot = i + 1) stand for positions in the same sequence
+            derived = {idx}
+            grew = True
+            while grew:
+                grew = False
+                for nm2, vals2 in las.items():
+                    if nm2 in derived:
+                        continue
+                    for v2 in vals2:
+                        if isinstance(v2, (ast.BinOp, ast.Name, ast.UnaryOp)) and any(isinstance(y, ast.Name) and y.id in derived for y in ast.walk(v2)) \
+                                and not any(isinstance(y, (ast.Call, ast.Subscript)) for y in ast.walk(v2)):
+                            derived.add(nm2)
+                            grew = True
+            uses = [x for x in walk_local(fi.node) if isinstance(x, ast.Subscript) and isinstance(x.value, ast.Name) and x.value.id == base
+                    and any(isinstance(y, ast.Name) and y.id in derived for y in ast.walk(x.slice)) and x.lineno >= lp.lineno]
+            if uses:
+                rep.violation(key, fi.loc(uses[0]), f'`{idx}` counts positions in `{seq}` = `{norm(comp)[:60]}`, which leaves elements of `{base}` out, but `{norm(uses[0])}` uses it '
+                              f'as a position in `{base}`: as soon as a filtered-out element lies before that position the two differ, and the cut lands in the wrong place')
+            else:
+                rep.ok(key, fi.loc(lp), f'`{idx}` is only used on `{seq}`')
+    return rep
+
+
+# ---------------------------------------------------------------------------------------------
+@rule('R117', 'ordering by a key is done with key=: a decorated sort of (key, element) pairs compares the elements themselves when keys tie')
+def r117(ctx: Ctx) -> RuleReport:
+    rep = RuleReport('R117', r117.title, floor=2)
+    for fi in ctx.repo.all_functions():
+        for n in walk_local(fi.node):
+            call = None
+            if isinstance(n, ast.Call) and isinstance(n.func, ast.Name) and n.func.id == 'sorted' and n.args:
+                call, seq = n, n.args[0]
+            elif isinstance(n, ast.Call) and isinstance(n.func, ast.Attribute) and n.func.attr == 'sort' and isinstance(n.func.value, ast.Name):
+                call, seq = n, n.func.value
+            if call is None:
+                continue
+            key = f'{fi.module.name}:{fi.qualname}: `{norm(call)[:60]}`'
+            haskey = any(k.arg == 'key' and not (isinstance(k.value, ast.Constant) and k.value.value is None) for k in call.keywords)
+            src = seq
+            if isinstance(src, ast.Name):
+                vals = [v for v in ctx.cg.local_assigns(fi).get(src.id, []) if isinstance(v, ast.AST)]
+                if len(vals) == 1:
+                    src = vals[0]
+            if isinstance(src, (ast.GeneratorExp, ast.ListComp)) and len(src.generators) == 1 and isinstance(src.elt, ast.Tuple) and len(src.elt.elts) >= 2 \
+                    and not haskey:
+                tv = {x.id for x in ast.walk(src.generators[0].target) if isinstance(x, ast.Name)}
+                elts = src.elt.elts
+                last = elts[-1]
+                whole = isinstance(last, ast.Name) and last.id in tv or norm(last) == norm(src.generators[0].target)
+                # an explicit position (enumerate index / counter) in front of the element breaks every tie before the element is looked at
+                tiebreak = any(isinstance(e, ast.Name) and e.id in tv and e is not last for e in elts[1:-1])
+                if whole and not tiebreak and any(isinstance(x, ast.Call) for x in ast.walk(elts[0])):
+                    rep.violation(key, fi.loc(call), f'the pairs `{norm(src.elt)[:50]}` are sorted without key=: when two keys are equal the elements themselves are compared, '
+                                  f'so equal-key elements are re-ordered by their own value instead of keeping their input order (the sort is no longer stable), '
+                                  f'and elements that cannot be compared (a nested node against an atom) raise TypeError')
+                    continue
+            rep.ok(key, fi.loc(call), 'key= given' if haskey else 'plain sort of the elements')
+    return rep
+
+
+# ---------------------------------------------------------------------------------------------
+@rule('R118', 'a cursor that walks the matches of a pattern moves to the end of each match (not a fixed number of characters past its start, unless every match has that length)')
+def r118(ctx: Ctx) -> RuleReport:
+    import re as _re
+    from ..rx import Lang
+    rep = RuleReport('R118', r118.title, floor=0)
+    n_loops = 0
+    for fi in ctx.repo.all_functions():
+        for lp in walk_local(fi.node):
+            if not (isinstance(lp, ast.For) and isinstance(lp.target, ast.Name) and isinstance(lp.iter, ast.Call)
+                    and isinstance(lp.iter.func, ast.Attribute) and lp.iter.func.attr == 'finditer'):
+                continue
+            n_loops += 1
+            m = lp.target.id
+            rx = lp.iter.func.value
+            if norm(rx) == 're' and lp.iter.args:
+                okp, pat = fold_in_any(ctx, fi, lp.iter.args[0])
+                pat, fl = (pat if okp else None), 0
+            else:
+                pat, fl = _regex_of(ctx, fi, rx)
+            # names that hold m.start() (+ constant)
+            starts = {}
+            for st in ast.walk(lp):
+                if isinstance(st, ast.Assign) and isinstance(st.targets[0], ast.Name):
+                    v = st.value
+                    k = 0
+                    if isinstance(v, ast.BinOp) and isinstance(v.op, ast.Add) and isinstance(v.right, ast.Constant) and isinstance(v.right.value, int):
+                        k, v = v.right.value, v.left
+                    if isinstance(v, ast.Call) and isinstance(v.func, ast.Attribute) and v.func.attr == 'start' and norm(v.func.value) == m and not v.args:
+                        starts.setdefault(st.targets[0].id, []).append((k, st))
+                    elif isinstance(v, ast.Name) and v.id in starts and all(k0 == 0 for k0, _ in starts[v.id]):
+                        starts.setdefault(st.targets[0].id, []).append((k, st))
+            # the cursor: a name assigned in the loop from a start-derived value and read in the loop before being assigned (loop carried) or after it
+            for nm, defs in starts.items():
+                for k, st in defs:
+                    if k <= 0:
+                        continue
+                    carried = any(isinstance(x, ast.Name) and x.id == nm and isinstance(x.ctx, ast.Load) and x.lineno <= st.lineno and x is not st.targets[0]
+                                  for x in ast.walk(lp)) or any(isinstance(x, ast.Name) and x.id == nm and isinstance(x.ctx, ast.Load) and x.lineno > lp.end_lineno
+                                                               for x in walk_local(fi.node))
+                    if not carried:
+                        continue
+                    key = f'{fi.module.name}:{fi.qualname}: `{norm(st)[:50]}` moves the cursor past the match'
+                    if pat is None:
+                        rep.undecided(key, fi.loc(st), 'the pattern is not a constant')
+                        continue
+                    try:
+                        L = Lang.from_pattern(pat, fl)
+                        w = L.witness_not_subset(Lang.from_pattern('.{%d}' % k, _re.S))
+                    except Exception as exc:
+                        rep.undecided(key, fi.loc(st), f'pattern not modelled: {exc}')
+                        continue
+                    if w is not None:
+                        rep.violation(key, fi.loc(st), f'the cursor is set {k} character(s) past the start of the match, but the pattern {pat!r} also matches {w!r} '
+                                      f'({len(w)} characters): the rest of that match is taken for the beginning of the next piece (after "\\r\\n" the next line starts '
+                                      f'with "\\n", so every column on it is off by one)')
+                    else:
+                        rep.ok(key, fi.loc(st), f'every match of {pat!r} is {k} character(s) long')
+    rep.analysed['finditer_loops'] = n_loops
+    return rep
+
+
+# ---------------------------------------------------------------------------------------------
+@rule('R120', 'the position returned by str.find / rfind is used only where it is known not to be -1')
+def r120(ctx: Ctx) -> RuleReport:
+    rep = RuleReport('R120', r120.title, floor=0)
+    n = 0
+    for fi in ctx.repo.all_functions():
+        finds = {}
+        for st in walk_local(fi.node):
+            if isinstance(st, ast.Assign) and len(st.targets) == 1 and isinstance(st.targets[0], ast.Name) and isinstance(st.value, ast.Call) \
+                    and isinstance(st.value.func, ast.Attribute) and st.value.func.attr in ('find', 'rfind') and st.value.args:
+                finds.setdefault(st.targets[0].id, []).append(st)
+        for nm, sts in finds.items():
+            if len(ctx.cg.local_assigns(fi).get(nm, [])) != len(sts):
+                continue                                    # also bound otherwise: not followed
+            n += 1
+            recv = norm(sts[0].value.func.value)
+            sep = norm(sts[0].value.args[0])
+            def direct(sl):
+                # the name occurs in the slice expression itself, not inside a nested subscript
+                stack = [sl]
+                while stack:
+                    y = stack.pop()
+                    if isinstance(y, ast.Name) and y.id == nm:
+                        return True
+                    if isinstance(y, ast.Subscript):
+                        continue
+                    stack.extend(ast.iter_child_nodes(y))
+                return False
+            uses = [x for x in walk_local(fi.node) if isinstance(x, ast.Subscript) and direct(x.slice)]
+            for u in uses:
+                key = f'{fi.module.name}:{fi.qualname}: `{norm(u)[:40]}` uses the position `{nm}` = {norm(sts[0].value)[:40]}'
+                fx = facts_ex(ctx, fi, u)
+                guarded = any(nm in {y.id for y in ast.walk(ast.parse(f, mode='eval')) if isinstance(y, ast.Name)} for f, pol in fx) or \
+                    any(pol and f.replace(' ', '') in (f'{sep}in{recv}'.replace(' ', ''),) for f, pol in fx) or \
+                    any((not pol) and f.replace(' ', '') == f'{sep}notin{recv}'.replace(' ', '') for f, pol in fx)
+                if guarded:
+                    rep.ok(key, fi.loc(u), 'under a test of the position (or of the presence of what is searched)')
+                else:
+                    rep.violation(key, fi.loc(u), f'nothing on the way to this use tests `{nm}` against -1 or tests `{sep} in {recv}`: when {sep} does not occur, find returns -1 and '
+                                  f'`{norm(u)[:40]}` silently means "up to the last character" / "from the start" - the last character is cut off or the whole text is '
+                                  f'taken twice')
+    rep.analysed['find_results'] = n
     return rep
